@@ -29,7 +29,7 @@ DLS = ("n", "D1", "D2", "D3")
 
 def bounds(tier):
     return dict(tier=tier, families=["nested", "inherit", "helpers (TypedDict / NamedTuple with default / Union fields: generated helper methods)", "formats (to_dict / to_jsonb / to_msgpack and back on one class)", "late (subclass defined by an operation of the history)"], modes=list(c14.MODES), history_depth=3 if tier == "quick" else 4,
-                dialects=list(DLS), formats=list(formats.FORMATS), option_subsets="all of size <= 2 (thorough: <= 3)")
+                dialects=list(DLS), formats=list(formats.FORMATS), option_subsets="all of size <= 2 (thorough: <= 3)", dialect_styles=["options on the dialect", "on a parent Dialect class", "split between parent and child"])
 
 
 def units(tier):
@@ -47,6 +47,11 @@ def units(tier):
         for r in range(0, maxr + 1):
             for sub in itertools.combinations(names, r):
                 out.append(("codec", fmt, sub))
+                if sub:
+                    # the same options written on a parent Dialect class (all of them / the first one only)
+                    out.append(("codec", fmt, sub, "inherited"))
+                    if len(sub) > 1:
+                        out.append(("codec", fmt, sub, "split"))
     return out
 
 
@@ -166,9 +171,17 @@ VALUES = [
 
 def run_codec(unit):
     from mashumaro.dialect import Dialect
-    _, fmt, sub = unit
+    _, fmt, sub = unit[:3]
+    style = unit[3] if len(unit) > 3 else "direct"
     res = core.UnitResult()
-    D = type("UD", (Dialect,), {k: OPTIONS[k]() for k in sub}) if sub else None
+    if not sub:
+        D = None
+    elif style == "direct":
+        D = type("UD", (Dialect,), {k: OPTIONS[k]() for k in sub})
+    else:
+        up = sub if style == "inherited" else sub[:1]
+        Parent = type("House", (Dialect,), {k: OPTIONS[k]() for k in up})
+        D = type("UD", (Parent,), {k: OPTIONS[k]() for k in sub if k not in up})
     Enc, Dec = formats.codecs(fmt)
     BEnc, BDec = formats.codecs("basic")
     try:
@@ -176,7 +189,7 @@ def run_codec(unit):
         benc, bdec = BEnc(T13, default_dialect=D), BDec(T13, default_dialect=D)
     except Exception as e:   # noqa: BLE001
         res.cases += 1
-        res.violation(f"build-failed|{fmt}|{sub}", "build-failed", type(e).__name__, dict(unit=unit, value=None), repr(e)[:300])
+        res.violation(f"build-failed|{fmt}|{sub}|{style}", "build-failed", type(e).__name__, dict(unit=unit, value=None), repr(e)[:300])
         return res
     res.transitions += 4
     for vi, mk in enumerate(VALUES):
@@ -185,12 +198,18 @@ def run_codec(unit):
         res.transitions += 4
         try:
             basic = benc.encode(mk())
+            if style != "direct":
+                # anchor: where the options are written must not matter to the basic codec either
+                direct = BEnc(T13, default_dialect=type("UD", (Dialect,), {k: OPTIONS[k]() for k in sub})).encode(mk())
+                if direct != basic:
+                    res.violation(f"codec-dialect-neq|basic|{sub}|{style}|encode", "codec-dialect-neq", "encode",
+                                  dict(unit=unit, value=vi), f"value={v!r} basic codec: options on the dialect {direct!r} vs {style} {basic!r}")
             doc = enc.encode(v)
             parsed = formats.denative(formats.parse(fmt, doc))
             exp = formats.drop_none(basic) if fmt == "toml" else basic
             if parsed != exp:
                 res.outcomes["encode-neq"] += 1
-                res.violation(f"codec-dialect-neq|{fmt}|{sub}|encode", "codec-dialect-neq", "encode",
+                res.violation(f"codec-dialect-neq|{fmt}|{sub}|{style}|encode", "codec-dialect-neq", "encode",
                               dict(unit=unit, value=vi), f"value={v!r} basic={exp!r} parsed_{fmt}={parsed!r}")
             else:
                 res.outcomes["encode-ok"] += 1
@@ -203,14 +222,14 @@ def run_codec(unit):
             got = dec.decode(foreign)
             if got != want or type(got) is not type(want):
                 res.outcomes["decode-neq"] += 1
-                res.violation(f"codec-dialect-neq|{fmt}|{sub}|decode", "codec-dialect-neq", "decode",
+                res.violation(f"codec-dialect-neq|{fmt}|{sub}|{style}|decode", "codec-dialect-neq", "decode",
                               dict(unit=unit, value=vi), f"doc={src!r} basic_decoder={want!r} {fmt}_decoder={got!r}")
             else:
                 res.outcomes["decode-ok"] += 1
                 res.nontrivial += 1 if sub else 0
         except Exception as e:   # noqa: BLE001
             res.outcomes["exc:" + type(e).__name__] += 1
-            res.violation(f"codec-raised|{fmt}|{sub}|{type(e).__name__}", "codec-raised", type(e).__name__,
+            res.violation(f"codec-raised|{fmt}|{sub}|{style}|{type(e).__name__}", "codec-raised", type(e).__name__,
                           dict(unit=unit, value=vi), repr(e)[:300])
     res.sample(dict(format=fmt, dialect_options=list(sub), document=repr(enc.encode(VALUES[0]()))[:120]))
     res.states += 1
@@ -226,5 +245,5 @@ def replay(case):
     if unit[0] == "hist":
         h = tuple(tuple(o) for o in core.detuple(case["history"]))
         return run_hist(unit, only=(h, tuple(core.detuple(case["op"])))).violations
-    unit = (unit[0], unit[1], tuple(unit[2]))
+    unit = (unit[0], unit[1], tuple(unit[2])) + tuple(unit[3:])
     return [v for v in run_codec(unit).violations if v["case"]["value"] == case["value"]]
